@@ -15,9 +15,10 @@ RULES = {
     "R1": "writer/reader table agreement, exhaustive over the constructor's state-carrying parameters",
     "R2": "codec pairing: np.char.encode(x[, enc]) is read through np.char.decode(.., enc) with the same encoding",
     "R3": "no lossy transformer (dtype narrowing, round, clip, partial slice, sort/unique) between attribute and dataset",
+    "R5": "what load_h5 restores goes through the constructor's encoders: they join on the identifying columns and hand the mapping columns back unconverted (C01.R1 run here)",
     "R4": "load re-uses the stored mappings (constructor receives them; the supplied-mapping branch builds its table from the mapping verbatim)",
 }
-MIN = {"R1": 16, "R4": 3}
+MIN = {"R1": 16, "R4": 3, "R5": 6}
 TRUSTED = ["h5py stores and returns numpy arrays of float64/int64/bool/bytes unchanged", "np.char.encode/decode are inverse for utf-8"]
 TECHNIQUE = "writer/reader table extraction from the syntax tree and set comparison against the constructor's parameter list"
 LEVEL_TEXT = ("For every field of every screen at once: the loader restores it from the key under which the writer stored "
@@ -87,7 +88,12 @@ def run(ctx):
     r4(ctx)
 
 
-RULE_FUNCS = [r1, r4]
+def r5(ctx):
+    from . import C01
+    ctx.borrow(C01.r1, "R5")
+
+
+RULE_FUNCS = [r1, r4, r5]
 
 
 def _rep(a, b):
